@@ -35,5 +35,49 @@ R['C12'] = {
  "assumptions": ["Range is compared with PacketList of the same pair; PacketList is compared with the RFC 4585 enumeration"],
  "outside_claim": ["sequence-number lists longer than the stated bound"],
 }
+# ---- codec shapes shared by C02/C03/C05/C10 (a[0] = kind, then the shape)
+K = dict(SR=1,RR=2,SDES=3,BYE=4,APP=5,NACK=6,RRR=7,TWCC=8,CCFB=9,PLI=10,SLI=11,REMB=12,FIR=13,XR=14,RAW=15)
+def shapes(level):
+    q = []
+    def add(kind, *lists):
+        q.append({"h": None, "x": [[K[kind]]] + [list(l) for l in lists]})
+    big = level == 'thorough'
+    add('SR', [0,1,2] + ([31] if big else []), [0,4] + ([8] if big else []))
+    add('RR', [0,1,2] + ([31] if big else []), [0])
+    add('SDES', [0,1,2], [0,1,2], [0,1,3,4] + ([255] if big else []))
+    if big: add('SDES', [31], [1], [1])
+    add('BYE', [0,1,2] + ([31] if big else []), [0,1,2,3,4] + ([255] if big else []))
+    add('APP', [0,1,2,3,4,5,8])
+    add('NACK', [1,2] + ([253] if big else []))
+    add('RRR'); add('PLI')
+    add('SLI', [0,1,2])
+    add('FIR', [1,2] + ([31] if big else []))
+    add('REMB', [0,1,2] + ([255] if big else []), [1,46,63] + ([2,17,62] if big else []), [17])
+    add('REMB', [1], [0], [0,1,9,17])
+    add('CCFB', [0,1,2], [0,1,2,3,4])
+    add('TWCC', [0,1,2,3,4,5,6,7,8])
+    add('RAW', [4,8,12])
+    for k in range(1, 10): add('XR', [k])
+    q.append({'h': None, 'a': [[K['XR']]]})
+    if big:
+        for k1 in range(1, 10):
+            for k2 in range(1, 10): add('XR', [k1], [k2])
+    else:
+        add('XR', [1],[6]); add('XR', [8],[3]); add('XR', [7],[9]); add('XR',[5],[4]); add('XR',[2],[8])
+    return q
+def codec(h, level):
+    out = []
+    for c in shapes(level):
+        d = dict(c); d['h'] = h; out.append(d)
+    return out
+for pid, h in [('C02','VpC02'),('C03','VpC03'),('C05','VpC05'),('C10','VpC10')]:
+    R[pid] = {"quick": codec(h,'quick'), "thorough": codec(h,'thorough'), "bounds": "wip", "require_reach": ["reach:end"], "opts": {"unwind": 300}}
+
+R['C01'] = {
+ "quick": [{"h":"VpC01_Decode","x":[rng(1,23),rng(0,20)]}],
+ "bounds": "wip",
+ "opts": {"unwind": 80},
+ "require_reach": ["reach:end"],
+}
 json.dump(R, open('/verif/harness/registry.json', 'w'), indent=1)
 print("registry:", ", ".join(f"{k}" for k in R))
